@@ -556,6 +556,11 @@ example : ((manyMethods 339).toItem id).count = 2045 ∧ (manyMethods 339).seria
           ((manyMethods 340).toItem id).count = 2051 ∧ (manyMethods 340).serializable id = false := by decide +kernel
 example : (manyMethods 340).isValidFull ManifestConsts.validParamTypes (fun _ _ => true) false true id = some .notSerializable ∧
           (manyMethods 340).isValidFull ManifestConsts.validParamTypes (fun _ _ => true) false false id = Option.none := by decide +kernel
+-- items ToStackItem never produces: an Integer 2^64+16 in a type position is read as `int(x.Int64())` = 16 (Boolean), a
+-- Boolean as a name is the byte 01, a Buffer is no permission descriptor, a 33-byte ByteArray is no integer
+example : exDec.toType (.int (2 ^ 64 + 16)) = some 16 ∧ exDec.toType (.int (-(2 ^ 64 - 16))) = some 16 ∧
+          exDec.toStr (.bool true) = some [1] ∧ exDec.desc (.buffer (List.replicate 20 3)) = Option.none ∧
+          tryInt (.bytes (List.replicate 33 0)) = Option.none ∧ tryInt (.bytes [0xff, 0x7f]) = some 32767 := by decide
 example : exMan.WF exDec := by
   refine ⟨rfl, ?_, ?_, ?_, ?_, ?_, ?_⟩ <;> simp [exMan, exDec, exKey, Group.WF, Method.WF, Param.WF, Event.WF, Perm.WF, Desc.WF, ManifestConsts.validParamTypes]
 example : ({ exMan with perms := exMan.perms ++ [(⟨.group (exKey 9), none⟩ : Perm)] } : Man).isValid ManifestConsts.validParamTypes (fun _ _ => true) true
